@@ -81,6 +81,22 @@ Theorem C17_html_get_open_tag :
 Proof. exact get_open_tag_wf. Qed.
 Print Assumptions C17_html_get_open_tag.
 
+(* get_open_tag as an equation, on every string and over every ordered event list: the (first = only) tag event
+   strictly containing the position, as ContextTag; open and self-closing tags with the tokens of get_attributes *)
+Theorem C17_html_get_open_tag_eq :
+  forall (code : str) (pos : Z),
+    get_open_tag code pos =
+    Ok (option_map (ctx_of_event code) (find (hits pos) (fst (scan (o_special default_opts) code)))).
+Proof. exact get_open_tag_eq. Qed.
+Print Assumptions C17_html_get_open_tag_eq.
+
+Theorem C17_html_get_open_tag_events :
+  forall (code : str) (evs : list event) (lo : N) (pos : Z),
+    events_ordered lo evs ->
+    get_open_tag_of code (evs, None) pos = Ok (option_map (ctx_of_event code) (find (hits pos) evs)).
+Proof. exact get_open_tag_of_eq. Qed.
+Print Assumptions C17_html_get_open_tag_events.
+
 (* next / previous chosen by the stated comparison, over ALL (ordered) event lists *)
 Theorem C17_html_next_item :
   forall (pos : Z) (evs : list event), next_item_go pos evs = find (next_pred pos) evs.
